@@ -486,9 +486,43 @@ def tree_structure(I, tree):
             return (t.cls.name, tuple(rec(c) for c in ch[0]))
         return (type(t).__name__, tuple(rec(c) for c in ch[0]))
     try:
-        return rec(tree)
+        d = rec(tree)
     except Exception:
         raise Unsupported("tree_structure")
+    # the description compares like a treedef (==); the tree it was taken from is remembered as the template for unflatten
+    I.__dict__.setdefault("_treedefs", []).append((d, tree))
+    return d
+
+
+def tree_unflatten(I, treedef, leaves):
+    """jtu.tree_unflatten(treedef, leaves): the template tree of `treedef` with its leaves replaced, in order (A5)"""
+    tmpl = None
+    for d, t in reversed(I.__dict__.get("_treedefs", [])):
+        if d is treedef:
+            tmpl = t
+            break
+    if tmpl is None:
+        raise Unsupported("tree_unflatten with a treedef that did not come from tree_structure")
+    if isinstance(leaves, Stacked):
+        if not isinstance(leaves.n, int):
+            raise Unsupported("tree_unflatten with a symbolic number of leaves")
+        items = [leaves.at(z3.IntVal(j)) for j in range(leaves.n)]
+    else:
+        items = list(I.iterate(leaves))
+    pos = [0]
+
+    def rec(t):
+        ch = tree_children(I, t)
+        if ch is None:
+            if pos[0] >= len(items):
+                raise PyRaise("ValueError", ("too few leaves for treedef",))
+            pos[0] += 1
+            return items[pos[0] - 1]
+        return ch[1]([rec(c) for c in ch[0]])
+    out = rec(tmpl)
+    if pos[0] != len(items):
+        raise PyRaise("ValueError", ("too many leaves for treedef",))
+    return out
 
 
 # ---------------------------------------------------------------------------------- randomness (A8)
@@ -653,8 +687,21 @@ def pytree_dataclass(I, cls=None, **kw):
     raise Unsupported("pytree_dataclass as a decorator factory")
 
 
+def jnp_size(I, x):
+    if isinstance(x, (bool, int, float, SBool, SInt)) or (isinstance(x, SReal) and not x.vec):
+        return 1
+    if isinstance(x, Stacked):
+        probe = x.at(I.ctx.const("iprobe", z3.IntSort()))
+        if isinstance(probe, (SReal, SInt, SBool)) and not getattr(probe, "vec", False):
+            return x.n if isinstance(x.n, int) else SInt(x.n, True)
+    raise Unsupported(f"jnp.size of {type(x).__name__}")
+
+
 def install(I):
     e = I.ext
+    pi = SReal(z3.Real("pi"))
+    I.ext_consts = {"jax.numpy.pi": pi, "numpy.pi": pi, "math.pi": pi}
+    e["jax.numpy.size"] = jnp_size
     e["penzai.pz.pytree_dataclass"] = pytree_dataclass
     for p in ("jax.numpy.where", "jax.lax.select"):
         e[p] = jnp_where
@@ -681,6 +728,7 @@ def install(I):
         e[p] = tree_map
     e["jax.tree_util.tree_leaves"] = tree_leaves
     e["jax.tree_util.tree_structure"] = tree_structure
+    e["jax.tree_util.tree_unflatten"] = tree_unflatten
     e["jax.random.split"] = random_split
     e["jax.random.fold_in"] = random_fold_in
     e["jax.random.key"] = random_key
